@@ -17,6 +17,7 @@ import (
 	"pgregory.net/rapid"
 
 	"verif/harness/lab/gwc"
+	"verif/harness/lab/idp"
 	"verif/harness/lab/jwx"
 	"verif/harness/lab/sess"
 	"verif/harness/lab/tsgu"
@@ -411,4 +412,113 @@ func TestC02_FN(t *testing.T) {
 
 func TestC02_INP(t *testing.T) {
 	runProp(t, "C02_INP", func(t *rapid.T) c02Case { return genC02(t, "inp") }, classifyC02, runC02)
+}
+
+// ---- BIN: the cookie is issued by the binary's own /connect, mutated, and presented to the same instance ----
+
+type c02Bin struct {
+	Steps []c02Step `json:"steps"`
+	Kind  string    `json:"transport"`
+}
+
+func TestC02_BIN(t *testing.T) {
+	runProp(t, "C02_BIN", func(t *rapid.T) c02Bin {
+		c := genC02(t, "inp")
+		return c02Bin{Steps: c.Steps, Kind: c.Kind}
+	}, func(c c02Bin) (bool, []string) { return classifyC02(c02Case{Steps: c.Steps}) }, func(c c02Bin) *Violation {
+		w := W()
+		in, err := webInstance(webOpts{Store: "cookie", HostSelection: "roundrobin", Hosts: []string{w.addr("A")}, VerifyIP: true})
+		if err != nil {
+			return viol("bin/start", "%v", err)
+		}
+		// two logged-in sessions give two access tokens the identity provider knows
+		var ats [2]string
+		var issued [2]string
+		for k := 0; k < 2; k++ {
+			b := newBrowser()
+			lr, code, err := b.login(in, idp.CodeSpec{Sub: w.User, Username: w.User})
+			if err != nil || lr.Code != 302 {
+				return viol("c02/setup", "login failed: %v %d", err, lr.Code)
+			}
+			_, ats[k], _ = w.IdP.IssuedFor(code)
+			r, err := b.get(in, "/connect")
+			if err != nil || r.Code != 200 {
+				return viol("c02/setup", "download failed: %v %d", err, r.Code)
+			}
+			m, _ := parseRDP(r.Body)
+			issued[k] = rdpString(m, "gatewayaccesstoken")
+		}
+		for i, st := range c.Steps {
+			if st.Op == "idp" {
+				s := st.State
+				if s == "ok" {
+					s = "ok:" + w.User
+				}
+				w.IdP.SetAccessToken(ats[st.AT], s)
+				continue
+			}
+			var tok string
+			switch st.Tok.Kind {
+			case "minted":
+				tok = issued[st.Tok.AT] // what the binary itself issued
+			case "subst", "bitflip", "trunc":
+				tok = mutateText(issued[st.Tok.AT], st.Tok)
+			default:
+				id := identity.NewUser()
+				id.SetAttribute(identity.AttrClientIp, "127.0.0.1")
+				ctx := context.WithValue(context.Background(), identity.CTXKey, identity.Identity(id))
+				tok = buildC02Tok(st.Tok, ats, ctx)
+			}
+			if strings.ContainsRune(tok, 0) {
+				continue
+			}
+			verdict, reason, _, _ := refVerdict(tok, w.Key, time.Now(), w.IdP.TokenState)
+			r := sess.Run(c.Kind, gwc.Target{Addr: in.Addr}, [][]byte{tsgu.Handshake(1, 0, 0, 2), tsgu.TunnelCreate(tok, true), tsgu.Handshake(0, 0, 0, 2)})
+			resps, err := sess.Decode(r.Pkts)
+			if err != nil || len(resps) < 2 || resps[1].Type != tsgu.PktTunnelResponse {
+				return viol("c02/no-tunnel-response", "step %d: no tunnel response: %v %v", i, err, resps)
+			}
+			accepted := resps[1].Status == 0
+			desc := fmt.Sprintf("(real binary) step %d: token kind %s (%+v) -> reference %s (%s), accepted=%v, status %#x; token=%q", i, st.Tok.Kind, st.Tok, verdict, reason, accepted, resps[1].Status, shorten(tok))
+			if verdict == mustReject && accepted {
+				return viol("c02/accepted/"+st.Tok.Kind+"/"+strings.SplitN(reason, ":", 2)[0], "a cookie that must be refused was accepted: %s", desc)
+			}
+			if verdict == mustReject && resps[1].Status != tsgu.ErrCookieDenied {
+				return viol("c02/refusal-status", "refused with another status than cookie-access-denied: %s", desc)
+			}
+			if verdict == mustAccept && !accepted {
+				return viol("c02/refused-valid/"+st.Tok.Kind, "a valid cookie was refused: %s", desc)
+			}
+			if st.Tok.Kind == "minted" {
+				info, ierr := jwx.InspectJWS(tok, w.Key)
+				if ierr != nil || !info.MACOK {
+					return viol("c02/minted-not-verifiable", "the token issued by the binary does not verify under the configured key: %v", ierr)
+				}
+				if exp, _ := info.Claims["exp"].(float64); exp-float64(time.Now().Unix()) > 301 {
+					return viol("c02/minted-lifetime", "the issued token lives longer than five minutes")
+				}
+			}
+		}
+		return binHealthQuick(in)
+	})
+}
+
+func mutateText(valid string, k c02Tok) string {
+	switch k.Kind {
+	case "subst", "bitflip":
+		segs := strings.Split(valid, ".")
+		s := []byte(segs[k.Seg])
+		p := k.Pos % len(s)
+		if k.Kind == "subst" {
+			s[p] = b64chars[k.Val]
+		} else {
+			i := strings.IndexByte(b64chars, s[p])
+			s[p] = b64chars[i^(1<<uint(k.Val%6))]
+		}
+		segs[k.Seg] = string(s)
+		return strings.Join(segs, ".")
+	case "trunc":
+		return valid[:k.Pos%len(valid)]
+	}
+	return valid
 }
